@@ -23,6 +23,7 @@ import CtyModel.Stdlib.Format
 import CtyModel.Stdlib.d14FormatList
 import CtyModel.Stdlib.d14bRef
 import CtyModel.Stdlib.d14bDuration
+import CtyModel.Stdlib.d14bTimestamp
 open CtyModel CtyModel.StdNum
 
 namespace HStdNum
@@ -179,7 +180,8 @@ def handleStdNum : Handler := fun op args =>
     let r2 := implRes (f (libOf t true) as)
     pure (if r1 == r2 then r1 else "oracle-miss")
   | "std.glue.ref", [.atom name, .list as, .list es] => do
-    let f ← (if name == "timeadd" then some (fun L => timeAddImpl (D14b.refLibDur L)) else D14b.refImpl name)
+    let f ← (if name == "timeadd" then some (fun L => timeAddImpl (D14b.refLibTs L))
+      else if name == "formatdate" then some (fun L => formatDateImpl (D14b.refLibTs L)) else D14b.refImpl name)
     let as ← as.mapM Value.ofSexp
     let t ← es.mapM decEntry
     let r1 := implRes (f (libOf t false) as)
